@@ -188,6 +188,31 @@ pub fn generate(r: &mut Runner) {
         let nt = c.ops.len() > maxp;
         r.run(c, nt);
     }
+    // long / wide stage (hidden update counters inside a composite, "re-derive the state every 2^k inputs", windows
+    // larger than such an interval): per composite (a) periods in 513..=1300 over 4000 (quick) / 12000 inputs and
+    // (b) small periods over 2^16+ (quick) / 2^20+ inputs, every step compared with the hand-wired public parts
+    r.log_every = u64::MAX; // too long for the op log
+    let reps = if r.tier == Tier::Quick { 1 } else { 3 };
+    for name in INDS {
+        for rep in 0..2 * reps {
+            let wide = rep % 2 == 0;
+            let (np, nm) = crate::ind::arity(name).unwrap();
+            let ps: Vec<usize> = (0..np).map(|_| if wide { r.rng.range(513, 1300) } else { r.rng.range(1, 20) }).collect();
+            let ms: Vec<f64> = (0..nm).map(|_| multiplier(r)).collect();
+            let len = if wide { if r.tier == Tier::Quick { 4000 } else { 12000 } } else { (if r.tier == Tier::Quick { 1usize << 16 } else { 1usize << 20 }) + r.rng.range(50, 400) };
+            let regime = *r.rng.pick(gen::REGIMES);
+            let scale = *r.rng.pick(&[1e-2, 1.0, 100.0, 1e6]);
+            let bars = !crate::ind::has_next_name(name) || (*name != "BollingerBands" && *name != "MovingAverageConvergenceDivergence" && *name != "PercentagePriceOscillator" && r.rng.chance(0.5));
+            let xs = gen::stream(&mut r.rng, regime, len, true, scale);
+            let mut c = Case::new("C15", if wide { "long-wide" } else { "long-narrow" }, name, &ps, &ms);
+            if bars {
+                c.ops = gen::valid_bars(&mut r.rng, &xs).into_iter().map(Op::Bar).collect();
+            } else {
+                c.ops = xs.into_iter().map(Op::Next).collect();
+            }
+            r.run(c, true);
+        }
+    }
 }
 
-pub const RULE: &str = "huge-positive-scalars stage: MACD, PPO and KeltnerChannel (definitions linear in the prices) fed 2..40 values in 0.61..0.75×1e308 with |multiplier| <= 0.5 (parts and composite must both stay finite and agree); then: 8 composites × periods to 200 × multipliers (a third each: the dyadic set {0.5,1,2,3,10,0,-1,-2.5}; decimal factors not representable in binary/f32 {2.1,1.3,1.618,1/3,0.1,2.2,2.3,1.9,0.7,2.00001,3.3,-1.1,-0.3,sqrt 2,e,1e-3,7.77}; uniformly random 53-bit values in [−4,12)) × finite scalar streams (half strictly positive, half of any sign — centred on zero with probability 1/2 — for every composite with a scalar path, PPO included: its division by the slow EMA is judged whenever M/|slow EMA| <= 1e6, negative slow EMAs too) / valid bars with close != (high+low)/2 in 9 regimes; at every step the composite's outputs are compared with separately constructed PUBLIC parts (SMA, StandardDeviation, MAD, FastStochastic, EMA×3, TrueRange, ATR, Minimum, Maximum) fed the same stream and combined as documented: tau(t)·M (×condition number for PPO and CCI, on variances for the Bollinger half-width). Non-trivial = longer than the largest period.";
+pub const RULE: &str = "huge-positive-scalars stage: MACD, PPO and KeltnerChannel (definitions linear in the prices) fed 2..40 values in 0.61..0.75×1e308 with |multiplier| <= 0.5 (parts and composite must both stay finite and agree); then: 8 composites × periods to 200 × multipliers (a third each: the dyadic set {0.5,1,2,3,10,0,-1,-2.5}; decimal factors not representable in binary/f32 {2.1,1.3,1.618,1/3,0.1,2.2,2.3,1.9,0.7,2.00001,3.3,-1.1,-0.3,sqrt 2,e,1e-3,7.77}; uniformly random 53-bit values in [−4,12)) × finite scalar streams (half strictly positive, half of any sign — centred on zero with probability 1/2 — for every composite with a scalar path, PPO included: its division by the slow EMA is judged whenever M/|slow EMA| <= 1e6, negative slow EMAs too) / valid bars with close != (high+low)/2 in 9 regimes; at every step the composite's outputs are compared with separately constructed PUBLIC parts (SMA, StandardDeviation, MAD, FastStochastic, EMA×3, TrueRange, ATR, Minimum, Maximum) fed the same stream and combined as documented: tau(t)·M (×condition number for PPO and CCI, on variances for the Bollinger half-width). Non-trivial = longer than the largest period. Long / wide stage (not in the op log): per composite 1 (quick) / 3 (thorough) streams of 4000 / 12000 inputs with every period in 513..=1300 and as many streams of 2^16+ / 2^20+ inputs with periods 1..=20, every step compared the same way (a window wider than, or a run longer than, any internal re-derivation interval up to 2^16 / 2^20).";
